@@ -7,6 +7,7 @@
 """
 import json
 import math
+import numpy as np
 from fractions import Fraction
 
 from . import core
@@ -118,6 +119,25 @@ def replay(rec, ctx):
     if not core.close(integral, want, rtol=1e-9, atol=1e-300):
         kind = "nonzero-where-zero-expected" if want == 0 else ("zero-where-emission-expected" if integral == 0 else "total-differs")
         bad(kind, f"integrated emission {integral!r}, spec {num}/{den} x scale / 4pi = {want!r}")
+    # a line shape that does not depend on the receiver temperature (a user LineShapeModel): where the spec says nothing is emitted
+    # (zero receiver density or temperature, zero beam density) the shape must be handed nothing at all
+    if m == "bcx" and want == 0 and rec.get("prior", "none") == "none":
+        from cherab.core.model.lineshape import LineShapeModel
+        handed = []
+
+        class Flat(LineShapeModel):
+            def add_line(self, radiance, point, direction, spectrum):
+                handed.append(radiance)
+                spectrum.samples[:] = np.asarray(spectrum.samples) + radiance / (c03.HI - c03.LO)
+                return spectrum
+        flat = BeamCXLine(Line(c, 5, (8, 7)), lineshape=Flat)
+        flat.beam, flat.plasma, flat.atomic_data = beam, pl, ad
+        try:
+            out3 = flat.emission(Point3D(0, 0, 0.5), Point3D(0.1, 0.2, 0.3), bdir, Vector3D(1, 0, 0), Spectrum(c03.LO, c03.HI, c03.BINS))
+            if any(float(x) != 0.0 for x in out3.samples) or any(r != 0.0 for r in handed):
+                bad("nonzero-where-zero-expected:temperature-independent-shape", f"a line of radiance {handed[:1]} handed to the line shape where the spec total is zero")
+        except Exception as ex:       # noqa: BLE001
+            bad(f"raised-{type(ex).__name__}:temperature-independent-shape", repr(ex)[:150])
     # (T) arguments of the coefficient evaluations (the mock coefficients answer correctly only at the documented arguments, so
     # a mix-up shows in the total above; the recorded calls name the reason, and are observations when the total is right)
     wrong_total = bool(viol)
